@@ -125,6 +125,12 @@ impl Region {
             let abs_offset = region_start + offset;
             let slice = unsafe { std::slice::from_raw_parts_mut(ptr.add(abs_offset), value_len) };
             write_fn(&value, slice);
+            #[cfg(feature = "verif")]
+            crate::verif::emit(&crate::verif::Event::MmapWrite {
+                file: crate::verif::FileId::Data,
+                off: abs_offset,
+                bytes: slice,
+            });
             dirty_start = dirty_start.min(offset);
             dirty_end = dirty_end.max(end_offset);
         }
@@ -388,6 +394,12 @@ impl Region {
                 self.restore_dirty_bounds(min, max);
                 return Err(e.into());
             }
+            #[cfg(feature = "verif")]
+            crate::verif::emit(&crate::verif::Event::FlushAsync {
+                file: crate::verif::FileId::Data,
+                off: region_start + min,
+                len: max - min,
+            });
             true
         } else {
             false
@@ -400,6 +412,13 @@ impl Region {
         // but before data sync, metadata could reference unwritten data.
         if data_flushed || meta_flushed {
             db.file().sync_data()?;
+            #[cfg(feature = "verif")]
+            {
+                crate::verif::emit(&crate::verif::Event::Sync {
+                    file: crate::verif::FileId::Data,
+                });
+                crate::verif::point("region_flush:between_syncs");
+            }
             regions.sync_data()?;
         }
 
